@@ -29,6 +29,11 @@ def gen_plan(rng, prop):
     T = wchoice(rng, [(rng.randint(3, 10), 35), (rng.randint(10, 30), 45), (rng.randint(30, 60), 20)])
     ops = [{"op": "store", "tag": 1, "rs": rng.getrandbits(48)}]
     tag = 2
+    if rng.random() < 0.08:
+        # nothing stored yet: an empty subset needs no background, so the unperturbed prediction is still due
+        ops = [{"op": "impute", "subset": [], "stype": rng.choice(SUBSET_TYPES), "xtag": 500 + k_,
+                "n": rng.randint(1, 3), "rs": rng.getrandbits(48), "call": rng.choice(["pos", "kw"]), "empty_storage": True}
+               for k_ in range(rng.randint(1, 2))] + ops
     while len(ops) < T:
         if rng.random() < 0.4:
             op = {"op": "store", "tag": tag, "rs": rng.getrandbits(48)}
@@ -182,6 +187,11 @@ def run_imputer_plan(plan):
                 else:
                     preds = imputer.impute(subset, x, n_arg)
             except Exception as exc:  # noqa: BLE001
+                if not sub_names:
+                    # an empty subset needs nothing from the background: the unperturbed prediction is due whatever
+                    # the storage holds (a non-empty subset on an empty storage cannot be served: abort, no verdict)
+                    return viol("empty-subset-raised", "impute of an empty subset raised %s: %s (storage holds %d rows)"
+                                % (type(exc).__name__, str(exc)[:80], len(rows_copy)), i)
                 res["aborted"] = "%s: %s" % (type(exc).__name__, str(exc)[:100])
                 break
             res["ops_run"] = i + 1
@@ -207,6 +217,8 @@ def run_imputer_plan(plan):
             if not S:
                 want = model_fn(x_before)
                 probe("empty_subset")
+                if not rows_copy:
+                    probe("empty_subset_on_empty_storage")
                 for j in range(n):
                     if preds[j] != want:
                         return viol("empty-subset", "prediction %r for an empty subset, unperturbed prediction %r"
